@@ -54,12 +54,34 @@ theorem matchAny_perm (c : Ctx) (l : Loc) (e : Elem) {A B : List Sel} (h : List.
   | swap x y t => simp only [matchAny_cons]; cases matchSel c l e x <;> cases matchSel c l e y <;> rfl
   | trans _ _ ih1 ih2 => exact ih1.trans ih2
 
-/-- `matchList` unfolded, with the local context swap made explicit. -/
+/-- `matchList` unfolded, with the local context swap made explicit.  The `!A.isEmpty` conjunct is
+    Python's `match = False` initialisation, which only the loop body overwrites: an *empty* list
+    returns `False` even when `is_not` is set. -/
 theorem matchList_mk (c : Ctx) (l : Loc) (e : Elem) (A : List Sel) (n h : Bool) :
     matchList c l e (.mk A n h) =
-      (if (!h || c.isHtml) = true then (matchAny (if h = true then c.htmlOnly else c) l e A != n) else false) := by
+      (if (!h || c.isHtml) = true then
+        (!A.isEmpty && (matchAny (if h = true then c.htmlOnly else c) l e A != n)) else false) := by
   conv => lhs; unfold matchList
   rfl
+
+/-- For a list that is not negated the emptiness test is redundant. -/
+theorem matchList_pos (c : Ctx) (l : Loc) (e : Elem) (A : List Sel) (h : Bool) :
+    matchList c l e (.mk A false h) =
+      ((!h || c.isHtml) && matchAny (if h = true then c.htmlOnly else c) l e A) := by
+  rw [matchList_mk]
+  cases A with
+  | nil => simp [matchAny_nil]
+  | cons s rest => split <;> simp_all
+
+/-- A negated list. -/
+theorem matchList_neg (c : Ctx) (l : Loc) (e : Elem) (A : List Sel) (h : Bool) :
+    matchList c l e (.mk A true h) =
+      ((!h || c.isHtml) && !A.isEmpty && !matchAny (if h = true then c.htmlOnly else c) l e A) := by
+  rw [matchList_mk]
+  split
+  · rename_i hg; rw [hg]
+    cases matchAny (if h = true then c.htmlOnly else c) l e A <;> simp
+  · rename_i hg; simp only [Bool.not_eq_true] at hg; rw [hg]; rfl
 
 /-- The `subs.isEmpty ||` guard of `matchSel` is redundant: `matchSubs [] = true`. -/
 theorem subs_guard (c : Ctx) (l : Loc) (e : Elem) (S : List SelList) :
